@@ -427,6 +427,15 @@ func crashViolation(stderr string, exit int) (*Violation, bool) {
 		site = m[1]
 	}
 	switch {
+	case strings.Contains(stderr, "HANG: run "):
+		hs := "unknown"
+		if i := strings.Index(stderr, "blocked in github.com/blevesearch/zapx/v16."); i >= 0 {
+			rest := stderr[i+len("blocked in github.com/blevesearch/zapx/v16."):]
+			if j := strings.IndexByte(rest, '\n'); j >= 0 {
+				hs = rest[:j]
+			}
+		}
+		return &Violation{Oracle: "hang", Site: hs, Msg: stderr[strings.Index(stderr, "HANG: run "):]}, true
 	case strings.HasPrefix(stderr, "MEMORY:"):
 		return &Violation{Oracle: "memory-blowup", Site: "worker", Msg: stderr + "\n(legal calls on the code under test allocated without bound - typically a corrupted length or offset read back from a segment)"}, true
 	case strings.Contains(stderr, "WARNING: DATA RACE"):
@@ -869,6 +878,7 @@ func check(id, tier string, runsOverride, secsOverride int) int {
 		return fails[a].run < fails[b].run
 	})
 	seen := map[string]bool{}
+	attempts := map[string]int{} // failing runs of a class whose trace did not reproduce
 	exit := 0
 	unstable := false
 	nViol := 0
@@ -894,9 +904,9 @@ func check(id, tier string, runsOverride, secsOverride int) int {
 		// in which zapx walks its section map (Go map iteration). Then it replays
 		// with the probability of that order, and up to 10 (race: 20) fresh-process
 		// attempts are made.
-		tries := 10
+		tries := 25
 		if f.variant.Race {
-			tries = 20
+			tries = 30
 		}
 		seqMode := false
 		flaky := false
@@ -948,8 +958,17 @@ func check(id, tier string, runsOverride, secsOverride int) int {
 			continue
 		}
 		if flaky && !sameClass(f.variant, &rf, cls, tries) {
-			fmt.Fprintf(os.Stderr, "UNSTABLE: run %d (%s) failed with %s but its trace does not reproduce it; treated as harness trouble\n%s\n",
-				f.run, f.variant.Name, cls, tail(f.viol.Msg, 3000))
+			// try the next failing runs of this class before giving up: a violation
+			// that needs a particular order of zapx's section map AND a particular
+			// instant may replay with a low probability for one trace and a fair one
+			// for another
+			attempts[cls]++
+			if attempts[cls] < 4 {
+				seen[cls] = false
+				continue
+			}
+			fmt.Fprintf(os.Stderr, "UNSTABLE: run %d (%s) failed with %s but neither its trace nor those of %d other failing runs of that class reproduce it; treated as harness trouble\n%s\n",
+				f.run, f.variant.Name, cls, attempts[cls]-1, tail(f.viol.Msg, 3000))
 			unstable = true
 			continue
 		}
@@ -960,7 +979,7 @@ func check(id, tier string, runsOverride, secsOverride int) int {
 		}
 		rf.Trace = minimise(f.variant, rf, cls, budget, flaky)
 		if flaky && !f.variant.Race {
-			rf.Note = "replays probabilistically: the violation depends on the order in which zapx walks its section map (Go map iteration), which no seed controls; ./check replay retries up to 10 times. "
+			rf.Note = "replays probabilistically: the violation depends on the order in which zapx walks its section map (Go map iteration), which no seed controls; ./check replay retries up to 25 times. "
 		}
 		// final replay for the event log
 		if rr, _, _ := replayOnce(f.variant, &rf, 120*time.Second); rr != nil && rr.Viol != nil {
@@ -1061,9 +1080,9 @@ func replayCmd(path string) int {
 		fmt.Fprintln(os.Stderr, "BUILD FAILED:", err)
 		return 2
 	}
-	tries := 10
+	tries := 25
 	if v.Race {
-		tries = 20
+		tries = 30
 	}
 	for i := 0; i < tries; i++ {
 		rr, stderr, code := replayOnce(v, &rf, 300*time.Second)
